@@ -280,7 +280,7 @@ def sec_chunk_order(rec, chunks=((30, 30), (60,), (60,)), n=3, patches=None):
         rot = rotation.SymRotation([[0, 0, 0, 1]] * n)
         ld = c02._make_loader(L, xp, stubs.ImgStub(size, chunks=chunks), P, rot, 1, 1, shp, False)
         tasks = ld.construct_loading_tasks(backend=xp)
-        return [t.compute() for t in tasks]
+        return stubs.compute_together(tasks)
 
     paths = explore(run, assumptions=hyps, max_paths=3000)
     o = [z3.Real(f"o{i}") for i in range(3)]
